@@ -171,6 +171,7 @@ def rule_R1(ctx, repo, flow):
     ok = any(astq.call_name(c) == "check_time_index" for c in astq.calls(cy)) and \
         all(isinstance(r.value, ast.Call) and astq.call_name(r.value) == "check_time_index" for r in astq.returns(cy))
     ctx.check(ok, "R1", "_check_y:check_time_index", "_check_y returns check_time_index(...)", "_check_y does not return the checked index", ctx.loc(bs.module, cy))
+    _unwrap_only_series(ctx, repo, bs.module, cy)
     ATTR_VALIDATORS = {
         "window_length": ("check_window_length",),
         "initial_window": ("check_window_length",),
@@ -250,6 +251,7 @@ def rule_R1(ctx, repo, flow):
         ok = ok or not conds
     ctx.check(ok, "R1", "_split_by_fh:check_equal_time_index", "indices of y and X compared whenever X is given",
               "check_equal_time_index is not called when X is given", ctx.loc(m, sb))
+    _raw_data_args(ctx, repo, m, sb, "check_equal_time_index", ("y", "X"), "_split_by_fh")
     oos = False
     for n in ast.walk(sb):
         if isinstance(n, ast.If) and block_always_raises(n.body):
@@ -345,6 +347,101 @@ def rule_R1(ctx, repo, flow):
               "a value type admitted for neither relative nor absolute horizons is rejected whatever is_relative is",
               "index type vs relative/absolute compatibility is not enforced on every path (rejection condition %s)" % show(pci.raises),
               ctx.loc(fhc.module, init))
+
+
+def _raw_data_args(ctx, repo, module, fn, checker, params, label):
+    """The comparison/validation helper ``checker`` is applied to the *data the caller passed*: every call hands it the
+    parameters ``params`` themselves (or the same objects through pass-through helpers), not a slice / re-indexed / filtered
+    derivative -- a derivative can satisfy the check while the data does not."""
+    from ..passthru import alias_locals
+    pa = {p: p for p in params}
+    alias, origin_of = alias_locals(repo, module, fn, lambda e: None, params_alias=pa)
+    calls = [c for c in astq.calls(fn) if astq.call_name(c) == checker]
+    for c in calls:
+        got = [origin_of(a) for a in c.args]
+        key = "%s:%s:raw-arguments" % (label, checker)
+        if None in got:
+            bad = c.args[got.index(None)]
+            derived = any(isinstance(x, ast.Name) and x.id in params for x in ast.walk(bad))
+            if derived:
+                ctx.violation("R1", key, "%s is applied to `%s`, a value derived from the caller's data, instead of the data itself: "
+                              "input whose index differs outside what the derived value keeps is accepted" % (checker, ast.unparse(bad)),
+                              ctx.loc(module, c), witness={"X": "index of y plus extra rows"})
+            else:
+                ctx.undecided("R1", key, "argument `%s` of %s not traceable to a parameter" % (ast.unparse(bad), checker), ctx.loc(module, c))
+        else:
+            ctx.check(set(got) == set(params), "R1", key, "%s receives the caller's %s" % (checker, ", ".join(params)),
+                      "%s receives %s, expected all of %s" % (checker, got, list(params)), ctx.loc(module, c))
+
+
+def _unwrap_only_series(ctx, repo, module, fn):
+    """`_check_y` may replace its argument by ``.index`` only for a pandas Series: any other container (DataFrame =
+    multivariate target, ndarray) must reach check_time_index as it is, whose exact-type test rejects it."""
+    g = CFG(fn)
+    pname = fn.args.args[0].arg
+    n_sites = 0
+    for node in g.nodes:
+        for e in node.exprs:
+            for sub in astq.walk_no_nested(e):
+                if isinstance(sub, ast.Attribute) and sub.attr == "index" and isinstance(sub.value, ast.Name) and sub.value.id == pname:
+                    n_sites += 1
+                    classes = None
+                    for t, br in g.guards_of(node):
+                        if br is True and isinstance(t, ast.Call) and astq.call_name(t) == "isinstance" and len(t.args) == 2 \
+                                and dotted(t.args[0]) == pname:
+                            spec = t.args[1]
+                            elts = spec.elts if isinstance(spec, (ast.Tuple, ast.List)) else [spec]
+                            classes = []
+                            for el in elts:
+                                sym = repo.resolve_dotted(module, dotted(el)) if dotted(el) else None
+                                classes.append(sym.dotted if sym is not None and sym.kind == "ext" else None)
+                    key = "_check_y:index-only-of-series"
+                    loc = ctx.loc(module, sub)
+                    if classes is None:
+                        ctx.violation("R1", key, "`%s.index` is taken without an isinstance(%s, pd.Series) guard: a DataFrame (multivariate "
+                                      "target) is unwrapped to its index and accepted" % (pname, pname), loc, witness={"y": "pd.DataFrame"})
+                    elif None in classes:
+                        ctx.undecided("R1", key, "isinstance class list not resolvable", loc)
+                    else:
+                        extra = sorted(set(classes) - {"pandas.Series"})
+                        ctx.check(not extra, "R1", key, "`.index` is taken only of a pandas Series",
+                                  "`%s.index` is also taken of %s: a multivariate / non-series target is unwrapped to its index and "
+                                  "accepted by every splitter instead of being rejected by check_time_index" % (pname, ", ".join(extra)),
+                                  loc, witness={"y": extra[0] if extra else None})
+    if n_sites == 0:
+        ctx.ok("R1", "_check_y:index-only-of-series", "_check_y never unwraps its argument", ctx.loc(module, fn))
+
+
+def _atomic_data_store(ctx, repo, flow):
+    """R5: the methods that store the training data validate *everything* first: once `self._y` / `self._X` has been
+    written nothing may reject any more (a rejected fit/update must leave no fitted state behind)."""
+    sk = repo.cls(SKT + ":_SktimeForecaster")
+    for mname in ("_set_y_X", "_update_y_X", "_update_X"):
+        fn = sk.methods.get(mname)
+        if fn is None:
+            if mname == "_update_X":
+                continue
+            raise AnalysisError("anchor missing: _SktimeForecaster.%s" % mname)
+        g = flow.cfg(fn)
+        stores = [n for n in g.nodes if isinstance(n.stmt, (ast.Assign, ast.AugAssign)) and any(
+            astq.is_self_attr(x) and isinstance(x.ctx, ast.Store) and x.attr in ("_y", "_X")
+            for t in (n.stmt.targets if isinstance(n.stmt, ast.Assign) else [n.stmt.target]) for x in ast.walk(t))]
+
+        def rejecting(m):
+            if isinstance(m.stmt, ast.Raise):
+                return True
+            return any((astq.call_name(cl) or "").startswith("check_") for cl in m.calls())
+        later = []
+        for s_ in stores:
+            # a validator evaluated in the storing statement itself runs before the store
+            later += [m for m in g.may_reach_after(s_, rejecting) if m is not s_]
+        key = "_SktimeForecaster.%s:validate-all-then-store" % mname
+        ctx.check(bool(stores) and not later, "R5", key, "every validator runs before the first store of the training data",
+                  "%s stores the training data and can still reject afterwards (line %s): a rejected call leaves a changed `_y`/`_X` "
+                  "behind, so the next predict uses data of a call that raised" % (
+                      mname, ", ".join(str(getattr(m.stmt, "lineno", "?")) for m in later[:3])) if stores else
+                  "%s never stores _y/_X" % mname, ctx.loc(sk.module, (later[0].stmt if later else fn)),
+                  witness={"history": "fit(y1); fit(y2, X_with_other_index) raises; predict() now uses y2"} if later else None)
 
 
 def _raise_sites(repo, flow, cls, defcls, fn, depth=2, seen=None):
@@ -1091,6 +1188,9 @@ def rule_R5(ctx, repo, flow):
             ctx.check(not later, "R5", "%s.fit:no-reject-after-fitted" % k.qual, "nothing can reject after the flag is set",
                       "%s.fit can still reject input after _is_fitted = True (line %s)" % (k.name, [getattr(m.stmt, "lineno", "?") for m in later[:3]]),
                       ctx.loc(k.module, s.stmt))
+
+
+    _atomic_data_store(ctx, repo, flow)
 
 
 # ================================================================================ R6
